@@ -110,7 +110,16 @@ def run(harnesses, jobs=8, timeout=1500, extra=()):
                 r['reason'] = ''
         elif 'VERIFICATION:- FAILED' in txt:
             fc = re.findall(r'Failed Checks: (.*)', txt)
+            # CBMC's informational float checks (a NaN / inf result is not a panic in Rust; every range assertion of ours
+            # fails on a NaN anyway, because all comparisons with NaN are false)
+            info_only = [x for x in fc if re.match(r'\s*(NaN on |arithmetic overflow on floating-point)', x)]
+            fc = [x for x in fc if x not in info_only]
             r['failed_checks'] = fc
+            r['ignored_float_checks'] = info_only
+            if not fc and info_only:
+                r['status'] = 'pass'
+                r['reason'] = 'only informational float checks failed: ' + '; '.join(info_only[:3])
+                continue
             if any('unwinding assertion' in x for x in fc) and all(('unwinding assertion' in x) for x in fc):
                 r['status'] = 'undecided'
                 r['reason'] = 'unwinding bound too small for the current code'
